@@ -467,7 +467,18 @@ def strategies():
                                "body": st.sampled_from(RAW_BODIES)}),
     )
     one = st.one_of(create_ok, create_ok, create, update, update_ok, start, start, other, other, other)
-    ops = st.integers(4, 30).flatmap(lambda n: st.lists(one, min_size=n, max_size=n))
+    plain_ops = st.integers(4, 30).flatmap(lambda n: st.lists(one, min_size=n, max_size=n))
+
+    # directed: a name is used again after its machine was deleted (create - read - delete - create with another definition - read), surrounded by arbitrary calls
+    @st.composite
+    def recreate(draw):
+        nm = draw(st.sampled_from(["m1", "m2", "m3"]))
+        d1, d2 = draw(st.permutations(["pass", "pass2", "fail", "wait"]))[:2]
+        mk = lambda d: {"op": "create", "name": nm, "role": "r1", "def": d, "type": draw(st.sampled_from(["omit", "STANDARD", "EXPRESS"])), "log": "omit"}
+        reads = lambda: [draw(st.sampled_from([{"op": "describe", "sm": nm}, {"op": "list"}, {"op": "describe", "sm": nm}]))]
+        mid = draw(st.lists(one, max_size=3))
+        return draw(st.lists(one, max_size=5)) + [mk(d1)] + reads() + [{"op": "delete", "sm": nm}] + mid + [mk(d2)] + reads() + draw(st.lists(one, max_size=5))
+    ops = st.one_of(plain_ops, plain_ops, plain_ops, recreate())
     return st.fixed_dictionaries({"front": st.sampled_from(["asyncio", "blocking"]), "validate_asl": st.booleans(), "ops": ops})
 
 
